@@ -300,6 +300,30 @@ def Out.sender : Out → String
   | .blockReq _ _ => "send_block_request" | .cblockReq => "send_compact_block_request" | .peerReq => "send_peer_request"
   | .txhashsetReq => "send_txhashset_request" | .segReq k => k.sender
 
+/-! ## adapter errors (`?` behind an adapter call: `chain::Error` → `Error::Chain`, tolerated by `try_break!`) -/
+
+/-- does `Protocol::consume` pass the result of this adapter call through `?` -/
+def Call.fallible : Call → Bool
+  | .totalDifficulty | .totalHeight | .kernel _ | .tx _ _ | .block _ _ | .cblock _ | .header _ | .headers _
+  | .locate _ | .archiveHeader | .txhashsetWrite _ | .recvSegment _ => true
+  | _ => false
+
+/-- the call as the regenerated path table spells it -/
+def Call.tag (c : Call) : String := if c.fallible then c.method ++ "?" else c.method
+
+/-- the calls up to and including the first `?`-call of method `f` (`none`: no such call on the path) -/
+def truncAt (f : String) : List Call → Option (List Call)
+  | [] => none
+  | c :: r => if c.fallible && c.method == f then some [c] else (truncAt f r).map (c :: ·)
+
+/-- `Protocol::consume` when the underlying adapter fails in method `f` (`Err(chain::Error)`): the `?`
+returns `Err(Error::Chain)` at that call - the later calls are not made, nothing is answered, `try_break!`
+tolerates it; what the `TrackingAdapter` remembered BEFORE handing on to the adapter stays remembered -/
+def consumeGlueF (g : Glue) (m : In) (f : String) : Glue × List Call × GOut :=
+  match truncAt f (consumeGlue g m).2.1 with
+  | some pre => ((consumeGlue g m).1, pre, .chainErr)
+  | none => consumeGlue g m
+
 /-- `Peer::is_abusive`: more than `MAX_PEER_MSG_PER_MIN` counted entries in the receive tracker -/
 def isAbusive (receivedEntries : List (Nat × Bool)) : Bool :=
   decide (trackedCount (rcOf receivedEntries) > MAX_PEER_MSG_PER_MIN)
